@@ -751,6 +751,19 @@ impl Callbacks for Cb {
         // external std bodies reachable from local code (bounded depth / size)
         let want_ext = std::env::var("PRECIS_EXPORT_STD").map(|v| v != "0").unwrap_or(true);
         let mut n_ext = 0;
+        if want_ext {
+            // the provided methods of Iterator are always exported: the interpreter runs them (loops around
+            // `next`) on its abstract iterators instead of the adaptors' specialised overrides
+            if let Some(it) = tcx.get_diagnostic_item(rustc_span::sym::Iterator) {
+                for m in tcx.provided_trait_methods(it) {
+                    let did = m.def_id;
+                    if !cx.ext_seen.contains(&did) && tcx.is_mir_available(did) {
+                        cx.ext_seen.insert(did);
+                        cx.ext_queue.push((did, 1));
+                    }
+                }
+            }
+        }
         while want_ext {
             let Some((did, depth)) = cx.ext_queue.pop() else { break };
             if n_ext >= 1500 {
